@@ -4,7 +4,7 @@ its local names in order of first binding.  Used only by sa/normalize.py to deci
 import ast, json, os, sys
 ROOT = os.path.dirname(os.path.dirname(os.path.abspath(__file__)))
 sys.path.insert(0, ROOT)
-from sa.normalize import _functions, local_names
+from sa.normalize import _functions, local_names, local_heads
 repo = sys.argv[1] if len(sys.argv) > 1 else "/repo"
 out = {}
 for dp, dn, fns in sorted(os.walk(os.path.join(repo, "maze_dataset"))):
@@ -19,7 +19,7 @@ for dp, dn, fns in sorted(os.walk(os.path.join(repo, "maze_dataset"))):
         mod = ".".join(rel)
         tree = ast.parse(open(p).read())
         for q, f, c, b in _functions(tree, mod):
-            out[q] = {"locals": local_names(f)}
+            out[q] = {"locals": local_names(f), "heads": local_heads(f)}
 json.dump({"_comment": "pinned tree: function -> locals in order of first binding (hints for behaviour-preserving normalisation only)",
            "commit": os.popen(f"git -C {repo} rev-parse --short HEAD").read().strip(), "functions": out},
           open(os.path.join(ROOT, "reference", "pinned_names.json"), "w"), indent=0)
